@@ -93,6 +93,13 @@ fn validate_file_name(name: &str) -> Result<&str> {
             ErrorKind::InvalidInput,
             "kismet cached file name must not starts with a backslash",
         )),
+        // A name is a single path component: anything with a slash
+        // would be resolved relative to the cache directory, and could
+        // land in a subdirectory or escape the directory altogether.
+        Some(_) if name.as_bytes().contains(&b'/') => Err(Error::new(
+            ErrorKind::InvalidInput,
+            "kismet cached file name must not contain a forward slash",
+        )),
         Some(_) => Ok(name),
     }
 }
